@@ -220,6 +220,17 @@ func (r *Run) Absorb(name string, st *gosym.ExploreStats, bounds string) {
 	if os.Getenv("VERIF_PROGRESS") != "" {
 		fmt.Printf("[%6.1fs] %s: paths=%d completed=%d inconclusive=%v queries=%d wall=%.1fs\n", time.Since(r.Start).Seconds(), name, st.Paths, st.Completed, st.Inconclusive, st.Solver.Queries, st.Wall)
 	}
+	if n := st.Inconclusive["engine-error"]; n > 0 {
+		// a defect of the checking machinery itself (never a verdict about the code under check): make it visible
+		d := ""
+		if len(st.Details) > 0 {
+			d = st.Details[0]
+		}
+		fmt.Printf("note: harness %s: %d paths ended in an error of the executor or the harness (inconclusive): %s\n", name, n, firstLine(d))
+	}
+	if st.Truncated {
+		fmt.Printf("note: harness %s: exploration truncated at the path budget after %d paths\n", name, st.Paths)
+	}
 	h, _ := r.Ev.Coverage["harnesses"].([]interface{})
 	inc := map[string]int{}
 	for k, v := range st.Inconclusive {
@@ -583,4 +594,11 @@ func ModelInt(v gosym.Value, m map[string]uint64) int64 {
 		return 0
 	}
 	return 0
+}
+
+func firstLine(s string) string {
+	if i := strings.IndexByte(s, '\n'); i >= 0 {
+		return s[:i]
+	}
+	return s
 }
